@@ -538,12 +538,8 @@ Lemma convert_fresh : forall refs s r, convert refs s = Some r ->
   fresh r /\ mate_view r = (s_flags s, s_mref s, s_mstart s, s_tlen s).
 Proof.
   intros refs s r H. unfold convert in H.
-  destruct (s_ref s) as [id|]; [destruct (s_start s) as [st0|]|].
-  - destruct (nth_error refs (N.to_nat id)); [|discriminate].
-    destruct (cigar_to_features _ _ _ _ _ _); [|discriminate].
-    destruct (encode_features _ _); [|discriminate]. inversion H; subst. repeat split.
-  - inversion H; subst. repeat split.
-  - inversion H; subst. repeat split.
+  destruct (convert_core _ _ _ _ _) as [[[[rl ms] q] ws]|]; [|discriminate].
+  destruct (encode_features _ _); [|discriminate]. inversion H; subst. repeat split.
 Qed.
 
 Lemma convert_all_fresh : forall refs ss rs, convert_all refs ss = Some rs ->
